@@ -355,3 +355,31 @@ func (x *Exec) lockIDOfExpr(s *State, e *Expr, names map[string]Val, pkg *types.
 	}
 	return canonID(v.T), nil
 }
+
+// havocGuardedBy gives arbitrary (well-typed) values to the fields that are declared `guarded … by`
+// the mutex just acquired, in the object that holds the mutex (mutex stored by value in the struct).
+func (x *Exec) havocGuardedBy(s *State, mu Val) {
+	if mu.LV == nil || mu.LV.Kind != lvField || mu.LV.Base != nil || mu.LV.ST == nil {
+		return
+	}
+	n, ok := mu.LV.STyp.(*types.Named)
+	if !ok || n.Obj().Pkg() == nil {
+		return
+	}
+	if strings.HasPrefix(mu.LV.Ref.Op, "new$") {
+		return // not shared yet
+	}
+	lockName := mu.LV.ST.Field(mu.LV.Field).Name()
+	for i := 0; i < mu.LV.ST.NumFields(); i++ {
+		f := mu.LV.ST.Field(i)
+		if x.eng.cs.Guarded[n.Obj().Pkg().Path()+"."+n.Obj().Name()+"."+f.Name()] != lockName {
+			continue
+		}
+		key := x.fieldKey(mu.LV.STyp, mu.LV.ST, i)
+		srt := x.sortOf(f.Type())
+		h := x.heapGet(s, key, SArr(SInt, srt))
+		nv := Var(x.eng.fresh("relock$"+f.Name()), srt)
+		x.assumeTyped(s, nv, f.Type())
+		x.heapSet(s, key, Store(h, mu.LV.Ref, nv))
+	}
+}
